@@ -1082,6 +1082,28 @@ def api_amend_oracle(ctx):
         if got != "returned" or nsent != 1:
             ctx.finding(Finding(PID, "amend-accepted-client-misbehaves",
                                 f"an accepted amendment repeated: {got}, requests sent {nsent}", {"outcome": got, "requests": nsent}))
+        # 3b. what the client remembers is which FILE was announced, not how it was spelled: from a working
+        # directory below the root, a second file whose spelling from there equals the root-relative label of
+        # the first must still be announced, and another spelling of the first file must not be sent again
+        for f in ("data.txt", "sub/data.txt"):
+            with open(os.path.join(base, f), "w") as fh:
+                fh.write("d")
+        client = apicap.make_client(answers={"amend_step": True})
+        with apicap.step_process(base, cwd_rel="sub", client=client) as (api, _):
+            try:
+                api.amend(inp=["data.txt"])          # sub/data.txt
+                api.amend(inp=["../data.txt"])       # data.txt: another file
+                api.amend(inp=["../sub/data.txt"])   # sub/data.txt again, spelled differently
+                got = "returned"
+            except Exception as exc:  # noqa: BLE001
+                got = type(exc).__name__
+            sent = [sorted(str(x) for x in c[1][1]) for c in client.calls if c[0] == "amend_step"]
+        ctx.stats.count("api-amend:spellings-below-the-root")
+        if got != "returned" or sent != [["sub/data.txt"], ["data.txt"]]:
+            ctx.finding(Finding(PID, "amend-history-confuses-files",
+                                f"from sub/: amend('data.txt'), amend('../data.txt'), amend('../sub/data.txt') {got}; the director "
+                                f"was told about {sent}, expected [['sub/data.txt'], ['data.txt']] (an input that is never "
+                                "announced is never checked, hashed or linked)", {"outcome": got, "sent": sent}))
         # 4. a directory as a dynamic input is rejected before the director hears of it
         client = apicap.make_client(answers={"amend_step": True})
         with apicap.step_process(base, client=client) as (api, _):
